@@ -20,7 +20,7 @@ except Exception as e:  # import of the package under test failed, etc.
     raise
 
 WRITE_OPS = {"AddPage", "AddPages", "AddLinks", "IndexBatchCrawl"}
-WE_OPS = {"CreateWe", "DeleteWe", "AddPrefix", "RemovePrefix", "MovePrefix"}
+WE_OPS = {"CreateWe", "DeleteWe", "DeleteWeNC", "AddPrefix", "RemovePrefix", "MovePrefix"}
 RULE_OPS = {"AddRule", "RemoveRule"}
 LIFE_OPS = {"Init", "Reopen", "Clear", "Recreate"}
 ALL_OPS = WRITE_OPS | WE_OPS | RULE_OPS | LIFE_OPS
